@@ -72,7 +72,7 @@ PROPS = {
         design='DESIGN.md §5 C07'),
     'C08': dict(
         title='size estimation compositional / bulk helpers / total', level='model_checking', templates=['memsize'],
-        k_quick=['q_ms_compose_scalar', 'q_ms_vec_string', 'q_ms_bulk_tuple_box', 'q_ms_array_flat', 'q_ms_wrappers', 'q_ms_seq_option_result', 'q_ms_any_hint'],
+        k_quick=['q_ms_compose_scalar', 'q_ms_vec_string', 'q_ms_bulk_tuple_box', 'q_ms_array_flat', 'q_ms_wrappers', 'q_ms_seq_option_result', 'q_ms_any_hint', 'q_ms_user_nodrop'],
         k_thorough=['t_ms_nested'],
         assumptions=['shapes outside the listed harnesses are not covered', 'stack depth is decided only through the non-recursion obligation of SizedArrayFlatIterator::next (Verus termination checker)',
                      'A-STD: std containers report capacity()/len() truthfully'],
@@ -139,7 +139,9 @@ PROPS = {
         assumptions=[A_DOUBLE, A_HB, A_UNSAFE, A_KBOUND], design='DESIGN.md §5 C17'),
     'C19': dict(
         title='&self operations never write', level='model_checking', templates=[],
-        k_quick=['q_frame_lookups', 'q_frame_lookups_small', 'q_it_iter', 'q_it_keys_values', 'q_op_clone'],
+        k_quick=['q_frame_lookups', 'q_frame_lookups_small', 'q_it_iter', 'q_it_keys_values', 'q_op_clone',
+                 # frame contracts with an empty modifies clause: CBMC checks every write instruction, so a write that restores the old value is still a write
+                 't_framec_peek', 't_framec_peek_entry', 't_framec_contains', 't_framec_peek_ends', 't_framec_iter', 't_framec_scalars'],
         k_thorough=['t_frame_lookups', 't_it_borrowing', 't_op_clone', 't_frame_debug', 't_framec_peek', 't_framec_peek_entry',
                     't_framec_contains', 't_framec_peek_ends', 't_framec_iter', 't_framec_scalars'],
         assumptions=[A_DOUBLE, A_HB, A_UNSAFE, A_KBOUND, 'the data-race clause follows by the property\'s own implication; no schedule is explored'],
